@@ -7,6 +7,7 @@ package kvindex
 // RemoveField drops one field from the in-memory registry and touches nothing
 // else in it (its key-value effects are stated under C09).
 //@ func (*KVIndex).RemoveField
+//@   vars idx path fk fkt ed
 //@   property C16 C09 C03
 //@   option prelude=keys,kv
 //@   option load=kvi
@@ -20,6 +21,7 @@ package kvindex
 // ListFields = a scan of the persisted field keys ("f" NUL field): every stored field
 // key is listed (by its parsed field name) and nothing else is.
 //@ func (*KVIndex).ListFields
+//@   vars idx out fPrefix it field
 //@   property C09 C04
 //@   option prelude=keys,kv
 //@   option load=kvi
@@ -39,6 +41,7 @@ package kvindex
 
 // mapDig only reads the document.
 //@ func mapDig
+//@   vars i path x ok y ok
 //@   property C09
 //@   option prelude=keys,idxkeys
 //@   pure
@@ -52,6 +55,7 @@ package kvindex
 // of the index families are written; no top-level write is issued (the caller's
 // transaction decides atomicity).
 //@ func (*KVIndex).AddDocTx
+//@   vars idx tx docID doc sdoc docKey field p x term t entryKey err termKey count buf data err
 //@   property C09 C03
 //@   option prelude=keys,kv,idxkeys,ieee,json
 //@   option load=kvi
@@ -91,6 +95,7 @@ package kvindex
 
 // AddField registers the field and persists its key; only index keys are written.
 //@ func (*KVIndex).AddField
+//@   vars idx path fk
 //@   property C03 C09
 //@   option prelude=keys,kv
 //@   option load=kvi
@@ -108,6 +113,7 @@ package kvindex
 // so an index opened on an existing store indexes new documents exactly like the
 // instance that wrote the store.
 //@ func NewIndex
+//@   vars kv idx fields f
 //@   property C04
 //@   option prelude=keys,kv
 //@   option load=kvi
@@ -125,6 +131,7 @@ package kvindex
 // Strings are their own bytes; a float64 is the 8 big-endian bytes of its IEEE-754 bit
 // pattern (be64(f64bits(v))); anything else is not indexable.
 //@ func GetTermBytes
+//@   vars term val val out
 //@   property C09
 //@   option prelude=ieee,json
 //@   nopanic
@@ -134,6 +141,7 @@ package kvindex
 //@   ensures other: !isAStr(term) && !isANum(term) ==> result.1 == TermUnknown
 
 //@ func GetBytesTerm
+//@   vars val ttype u
 //@   property C09
 //@   option prelude=ieee,json
 //@   nopanic
@@ -251,6 +259,7 @@ package kvindex
 // the entries stored under the term's scan prefix (and caches the result). It changes
 // nothing but the term key's value.
 //@ func (*KVIndex).termGetCount
+//@   vars idx tx field ttype term termKey count i err entryPrefix buf it
 //@   property C09
 //@   option prelude=keys,kv,idxkeys,idxcount,ieee
 //@   option load=kvi
@@ -294,6 +303,7 @@ package kvindex
 // Preconditions = the index's representation invariant for this document: its recorded
 // entries are stored, pairwise different, and are entry-family keys.
 //@ func (*KVIndex).RemoveDoc
+//@   vars idx docID err tx docKey data err doc entryKey field ttype term termKey count err derr buf
 //@   property C09
 //@   option prelude=keys,kv,idxkeys,idxcount,ieee
 //@   option load=kvi
